@@ -225,7 +225,7 @@ def execute(run):
     binary = build_driver()
     info = driver_info(binary)
     extra = {'circles': info['circles']}
-    n, k = (500, 16) if run.tier == 'quick' else (5000, 32)
+    n, k = (2000, 16) if run.tier == 'quick' else (5000, 32)
     run.run_shards(binary, [{'name': 'doc-%d' % i, 'n': n} for i in range(k)], extra=extra)
 
 
